@@ -5,21 +5,23 @@ package main
 // the comparator and the file join.
 
 import (
-	"os"
-	"regexp"
 	"fmt"
 	"go/ast"
+	"go/token"
 	"go/types"
+	"os"
+	"regexp"
 	"strings"
 )
 
 func init() {
 	register(&propDef{
-		ID: "C16",
+		ID:          "C16",
 		Explanation: "TAB-PRIORITY decides, from treeSort's source, that top-level nodes are ordered by a *stable* sort whose comparator is the strict `>` on the looked-up priorities of the two elements; that every priority key is a node kind the compiler knows; that every node kind whose compile-case defines something at load time (emits GLOBALFUNC / SETMETHOD / GLOBALSTRUCT or writes a global at compile time) is hoisted (priority > 0), in the order package ≥ import > type > {const, method, function} > 0 > init; and that no other node kind is moved (so statements and initialisers keep their relative source order). JOIN checks joinFiles drops exactly the package clause of every file after the first. Not decided: that a compile-time alias may refer to a later alias; fs.Glob's file order.",
 		Assumptions: []string{"sort.SliceStable is stable", "constants cannot depend on variables or functions (Go's constant-expression rule), which is why hoisting `const` above initialisers is unobservable"},
 		Quick: []ruleDef{
 			{"TAB-PRIORITY", 12, ruleTabPriority},
+			{"LOAD-TYPEDEPS", 2, ruleLoadTypeDeps},
 			{"JOIN", 2, ruleJoinFiles},
 			{"JOIN-IMPORTS", 2, ruleJoinImports},
 		},
@@ -63,24 +65,24 @@ func ruleTabPriority(c *Ctx, r *R) {
 	// the table is whatever map the comparator looks the node kinds up in (a local literal or a package-level table)
 	var cl *ast.CompositeLit
 	for _, hfd := range c.withHelpers(fd) {
-	ast.Inspect(hfd.Body, func(n ast.Node) bool {
-		ix, ok := n.(*ast.IndexExpr)
-		if !ok || cl != nil {
-			return true
-		}
-		if _, isMap := c.TypeOf(ix.X).Underlying().(*types.Map); !isMap {
-			return true
-		}
-		if sel, ok := unparen(ix.Index).(*ast.SelectorExpr); !ok || sel.Sel.Name != "Symbol" {
-			return true
-		}
-		if id, ok := unparen(ix.X).(*ast.Ident); ok {
-			if v, ok := c.Obj(id).(*types.Var); ok && !c.mapMutated(v) || true {
-				cl = c.mapLit(id.Name)
+		ast.Inspect(hfd.Body, func(n ast.Node) bool {
+			ix, ok := n.(*ast.IndexExpr)
+			if !ok || cl != nil {
+				return true
 			}
-		}
-		return true
-	})
+			if _, isMap := c.TypeOf(ix.X).Underlying().(*types.Map); !isMap {
+				return true
+			}
+			if sel, ok := unparen(ix.Index).(*ast.SelectorExpr); !ok || sel.Sel.Name != "Symbol" {
+				return true
+			}
+			if id, ok := unparen(ix.X).(*ast.Ident); ok {
+				if v, ok := c.Obj(id).(*types.Var); ok && !c.mapMutated(v) || true {
+					cl = c.mapLit(id.Name)
+				}
+			}
+			return true
+		})
 	}
 	if cl == nil {
 		r.undecided("priority", c.Pos(fd), "the priority table the comparator indexes by node kind was not found")
@@ -491,4 +493,66 @@ func (c *Ctx) localFuncLit(fd *ast.FuncDecl, name string) *ast.FuncLit {
 		return true
 	})
 	return out
+}
+
+// LOAD-TYPEDEPS: a named non-struct type (type Row []Cell) is resolved when its declaration
+// is compiled, so among those declarations one that mentions another has to come after it.
+// The priority sort alone keeps them in source order. Necessary condition decided here: the
+// sorter (treeSort and what it calls) looks inside the type definitions for the names they
+// mention — some function reachable from treeSort compares a node's Symbol with "(name)" —
+// and writes a reordered sequence back into the tree. Not decided: that the order computed
+// is a topological one.
+func ruleLoadTypeDeps(c *Ctx, r *R) {
+	fd := c.Func("treeSort")
+	if fd == nil {
+		r.undecided("treeSort", "-", "treeSort not found")
+		return
+	}
+	fns := c.staticReach([]string{"treeSort"}, func(*ast.FuncDecl) bool { return false })
+	scans := ""
+	for _, f := range fns {
+		ast.Inspect(f.Body, func(n ast.Node) bool {
+			switch x := n.(type) {
+			case *ast.BinaryExpr:
+				for _, e := range []ast.Expr{x.X, x.Y} {
+					if v, ok := c.ConstString(e); ok && v == "(name)" && (x.Op == token.EQL || x.Op == token.NEQ) {
+						scans = c.fnName(f)
+					}
+				}
+			case *ast.CaseClause:
+				for _, e := range x.List {
+					if v, ok := c.ConstString(e); ok && v == "(name)" {
+						scans = c.fnName(f)
+					}
+				}
+			}
+			return true
+		})
+	}
+	r.check(scans != "", "type definitions scanned", c.Pos(fd), "the sorter looks at the names a type definition mentions",
+		"treeSort hoists the named non-struct types but leaves them in source order: `type Grid []Row` declared before `type Row []int` (or `type C B; type B A`) is compiled while Row is unknown — elements lose their type, a struct made from C fails with `Object is nil, not *structT`")
+	// the reordered declarations reach the tree: an element of the top-level list is assigned
+	writes := false
+	ast.Inspect(fd.Body, func(n ast.Node) bool {
+		switch x := n.(type) {
+		case *ast.AssignStmt:
+			for _, l := range x.Lhs {
+				if ix, ok := unparen(l).(*ast.IndexExpr); ok {
+					if t, ok := c.TypeOf(ix.X).Underlying().(*types.Slice); ok && c.isTokenPtr(t.Elem()) {
+						writes = true
+					}
+				}
+			}
+		case *ast.CallExpr:
+			if c.CalleeName(x) == "builtin.copy" && len(x.Args) == 2 {
+				if t, ok := c.TypeOf(x.Args[0]).Underlying().(*types.Slice); ok && c.isTokenPtr(t.Elem()) {
+					writes = true
+				}
+			}
+		}
+		return true
+	})
+	if scans != "" {
+		r.check(writes, "order written back", c.Pos(fd), "the dependency order is stored into the top-level list", "treeSort computes an order of the named types but never stores it into the tree")
+	}
 }
